@@ -3,6 +3,10 @@
 import json, os
 V = os.path.dirname(os.path.abspath(__file__))
 CHECKS = {
+ "C08": dict(
+  text="Randomised search (rapid) over specs with planted groups of mangling-equivalent names (definitions, operation ids, id-less paths, synthesised vs explicit ids, tags, reserved package names, parameter names, inline-type names) next to plain control operations; server+client are generated with the binary built from the tree and compiled with the reflection harness. Oracle: generator error, or one model type per definition, one handler field and client method per operation, and every method+path reaches the handler carrying its own marker. Seven listed known findings (silent overwrites and merged Go names).",
+  note="Operation identity is observed behaviourally (unique default of a marker parameter), never by re-implementing the name mangling.",
+  tech="property-based testing (rapid): program generation over colliding names + structural and behavioural injectivity oracle"),
  "C10": dict(
   text="Randomised search (rapid) over specs with hostile free text and nested anonymous schemas, written as JSON or fully quoted YAML, x {minimal, full flatten, expand}: the generated server is compiled and asked (through the reflection harness) for restapi.SwaggerJSON, restapi.FlatSwaggerJSON and GET /swagger.json; oracle: JSON equality with the input tree for the original and served documents, and equality after local $ref expansion (own expander) for the flattened document. Three root causes of genuine differences are listed known findings.",
   note="NUL and BOM in free text make generation fail (allowed by C09) and are not generated here; names of definitions lifted by the flattener are not compared; x-go-* additions are ignored.",
